@@ -142,6 +142,13 @@ def check_sectors(ctx, sym, nd, css, duals, rng):
     charges = reachable_charges(sym, css, duals)
     if ctx.quick:
         charges = rng.sample(charges, min(2, len(charges)))
+    # also a total charge that NO combination reaches (the enumeration must then be empty)
+    from symv import gen as _gen
+
+    unreachable = [c for c in _gen.POOL[sym] if c not in reachable_charges(sym, css, duals)]
+    if unreachable and rng.random() < 0.3:
+        charges = list(charges) + [rng.choice(unreachable)]
+        ctx.count("sectors", "unreachable-total-charge")
     for charge in charges:
         expect = R.valid_sectors(sym, css, duals, charge)
         nall = 1
@@ -270,6 +277,47 @@ def huge_case(ctx, rng):
         ctx.nontrivial(("huge", sym, nleg, tuple(len(cs) for cs in css), tuple(duals)))
 
 
+def lopsided_case(ctx, rng):
+    """Legs of very different width: one leg with 8-14 charges beside legs with one or two."""
+    import itertools
+
+    sr = ctx.sr
+    from symv import gen
+
+    sym = rng.choice(["U1", "U1", "U1U1"])
+    nleg = rng.randint(2, 4)
+    wide = rng.randrange(nleg)
+    css = []
+    for k in range(nleg):
+        if k == wide:
+            n = rng.randint(8, 14)
+            cs = list(range(-rng.randint(0, 5), n)) if sym == "U1" else [(a, b) for a in range(-1, 3) for b in range(-1, 3)]
+            cs = cs[:n]
+        else:
+            pool = list(range(-2, 4)) if sym == "U1" else gen.POOL[sym]
+            cs = rng.sample(pool, rng.randint(1, 2))
+        css.append(sorted(cs))
+    duals = [rng.random() < 0.5 for _ in range(nleg)]
+    charge = R.sector_charge(sym, [rng.choice(cs) for cs in css], duals) if rng.random() < 0.8 else rng.choice(gen.POOL[sym])
+    expect = set(R.valid_sectors(sym, css, duals, charge))
+    indices = [sr.BlockIndex({c: 1 for c in cs}, dual=d) for cs, d in zip(css, duals)]
+    cls, extra, kind = gen.pick_class(sr, rng, sym, rng.random() < 0.3)
+    kw = dict(extra)
+    if cls.__name__.startswith(("Fermionic", "U1Fermionic", "U1U1Fermionic")) or "Fermionic" in cls.__name__:
+        if R.par(sym, charge):
+            kw["oddpos"] = 1
+    desc = {"symmetry": sym, "class": cls.__name__, "charges_per_leg": [len(cs) for cs in css], "duals": duals, "charge": repr(charge)}
+    o = ctx.call(lambda: list(cls(indices=indices, charge=charge, **kw).gen_valid_sectors()))
+    ctx.evaluated()
+    ctx.count("sectors", f"{sym}:gen_valid_sectors-lopsided")
+    if not o.ok:
+        ctx.violation(f"gen_valid_sectors-raises-{o.excname}", f"{desc}: {o.exc!r}", desc)
+        return
+    _judge(ctx, "gen_valid_sectors", o.value, sorted(expect, key=repr), desc)
+    if expect:
+        ctx.nontrivial(("lopsided", sym, tuple(len(cs) for cs in css), tuple(duals), repr(charge)))
+
+
 def _judge(ctx, what, got, expect, desc):
     gs = set(got)
     es = set(expect)
@@ -340,3 +388,5 @@ def run(ctx):
             ctx.run_case(check_sectors, ctx, sym, nd, css, duals, rng)
     for _, rng in ctx.cases("huge", ctx.budget(24, 300)):
         ctx.run_case(huge_case, ctx, rng)
+    for _, rng in ctx.cases("lopsided", ctx.budget(4000, 80000)):
+        ctx.run_case(lopsided_case, ctx, rng)
